@@ -28,7 +28,7 @@ def run(ctx):
     quick = ctx.tier == "quick"
     ecfg, rcfg, xcfg = ("VersionedTree_qe.cfg", "VersionedTree_qr.cfg", "VersionedTree_q.cfg") if quick else \
                        ("VersionedTree_te.cfg", "VersionedTree_tr.cfg", "VersionedTree_t.cfg")
-    n_s, n_m, n_l, n_x = (60, 24, 0, 8) if quick else (3000, 600, 240, 160)
+    n_s, n_m, n_l, n_x = (60, 24, 0, 8) if quick else (2000, 400, 160, 120)
     procs = 1 if quick else 6
     jobs = [
         lambda: R.tlc(ecfg, "exhaustive+edges 3 keys " + ecfg, tags=("EDGE",), timeout=3000, workers=6),
